@@ -693,7 +693,11 @@ class DataStore(Mapping):
         return hash_fast(
             np.array(
                 [
-                    hash(v)
+                    # plain numbers are hashed from their text: the builtin
+                    # hash can't tell `-1` and `-2` apart (both are `-2`)
+                    hash(hash_fast(repr(v).encode("utf-8")))
+                    if isinstance(v, (int, float)) and not isinstance(v, bool)
+                    else hash(v)
                     for v in self.data.values()
                     if v is not None and (not hasattr(v, "__len__") or len(v) > 0)
                 ],
